@@ -455,6 +455,7 @@ func execC20(ci any) (r hx.Result) {
 		// the same file through a Read loop that reuses one buffer, as io.Copy does: what a hole delivers must be
 		// zeros the handle wrote, not whatever the caller's buffer held before
 		var loop []byte
+		seekBack := ""
 		err, ok = check("read sparse (reused buffer) "+sf.Path, func() error {
 			f, err := fsys.Open(sf.Path)
 			if err != nil {
@@ -469,6 +470,29 @@ func execC20(ci any) (r hx.Result) {
 				n, rerr := f.Read(buf)
 				loop = append(loop, buf[:n]...)
 				if rerr == io.EOF {
+					// the same handle once more, backwards: whatever the handle remembers about where it was
+					// must not leak into a read after Seek
+					if sk, ok := f.(io.Seeker); ok {
+						for _, off := range []int64{int64(len(loop)) / 2, 0} {
+							if _, serr := sk.Seek(off, io.SeekStart); serr != nil {
+								return fmt.Errorf("Seek(%d): %w", off, serr)
+							}
+							for i := range buf {
+								buf[i] = 0xAA
+							}
+							m, rerr2 := io.ReadFull(f, buf)
+							if rerr2 != nil && rerr2 != io.EOF && rerr2 != io.ErrUnexpectedEOF {
+								return rerr2
+							}
+							end := off + int64(m)
+							if end > int64(len(loop)) {
+								end = int64(len(loop))
+							}
+							if !bytes.Equal(buf[:end-off], loop[off:end]) {
+								seekBack = fmt.Sprintf("after reading to the end and Seek(%d), Read returns other bytes than the first pass (%s)", off, diffAt(buf[:end-off], loop[off:end]))
+							}
+						}
+					}
 					return nil
 				}
 				if rerr != nil {
@@ -481,6 +505,10 @@ func execC20(ci any) (r hx.Result) {
 			return nil
 		})
 		if !ok {
+			return
+		}
+		if err == nil && seekBack != "" && bytes.Equal(loop, wd) {
+			r.Fail("sparse-content", "sparse file %q (%d bytes, %d segments): %s [%s]", sf.Path, sf.Size, len(sf.Segs), seekBack, feats)
 			return
 		}
 		if err == nil && !bytes.Equal(loop, wd) {
